@@ -91,6 +91,13 @@ func c09(c *Ctx) {
 				}
 			}
 		}
+		// the other way of getting one verdict per key: start empty and append exactly one per key
+		var av *appendVerdicts
+		if !okLen {
+			if av = findAppendVerdicts(f); av != nil {
+				okLen = true
+			}
+		}
 		r.Check(okLen, "R1.verdict-length", name, p.Pos(f.Pos()), "verdict container sized len(request.ContentKeys)", "the verdict container is not created with one slot per offered key")
 
 		// ---- R1b (code-list encoding): the zero value of a verdict is Accepted, so a slot nobody
@@ -107,9 +114,16 @@ func c09(c *Ctx) {
 				ia, ok := st.Addr.(*ssa.IndexAddr)
 				return ok && isRequestKeysOrVerdicts(ia.X) && isInductionVar(ia.Index)
 			}
+			if av != nil {
+				header = av.header
+				isVerdictStore = func(in ssa.Instruction) bool {
+					cc, ok := in.(*ssa.Call)
+					return ok && av.appends[cc]
+				}
+			}
 			for _, b := range f.Blocks {
 				for _, in := range b.Instrs {
-					if ph, ok := in.(*ssa.Phi); ok && isInductionVar(ph) && core.InLoop(b) {
+					if ph, ok := in.(*ssa.Phi); ok && av == nil && isInductionVar(ph) && core.InLoop(b) {
 						// the induction variable used to index the verdicts
 						used := false
 						for _, b2 := range f.Blocks {
@@ -147,6 +161,10 @@ func c09(c *Ctx) {
 					w2 = core.CutReach(core.CutSpec{Fn: f, From: body,
 						Cut:    func(b *ssa.BasicBlock, i int) bool { return stores[b.Succs[i]] },
 						Target: func(prev, b *ssa.BasicBlock) bool { return b == header && prev != nil }})
+				}
+				if av != nil && w2 == nil {
+					// appended form: and not more than one per pass through the body
+					w2 = av.secondAppend(f)
 				}
 				r.Check(w == nil && w2 == nil, "R1.verdict-length", name+" every-slot-written", p.Pos(f.Pos()),
 					"every success exit passed the loop over the offered keys and every iteration wrote its key's verdict", "a reply can leave a verdict slot unwritten, and an unwritten slot reads Accepted (0): keys are reported accepted although no gate was evaluated and nothing will be received: "+p.PathString(w)+p.PathString(w2))
@@ -212,6 +230,11 @@ func c09(c *Ctx) {
 			for _, in := range ap.Block().Instrs {
 				switch x := in.(type) {
 				case *ssa.Call:
+					if av != nil && av.appends[x] {
+						if k, isC := core.ConstInt(av.elem(x)); isC && k == 0 {
+							marked = true
+						}
+					}
 					if strings.HasSuffix(core.CalleeID(x), "go-bitfield.(Bitlist).SetBitAt") {
 						if bv, isC := core.ConstBool(x.Call.Args[2]); isC && bv {
 							marked = true
@@ -261,6 +284,11 @@ func c09(c *Ctx) {
 				isMark := false
 				switch x := in.(type) {
 				case *ssa.Call:
+					if av != nil && av.appends[x] {
+						if k, isC := core.ConstInt(av.elem(x)); isC && k == 0 {
+							isMark = true
+						}
+					}
 					if strings.HasSuffix(core.CalleeID(x), "go-bitfield.(Bitlist).SetBitAt") {
 						if bv, isC := core.ConstBool(x.Call.Args[2]); !isC || bv {
 							isMark = true
@@ -501,6 +529,7 @@ func c09(c *Ctx) {
 						}
 					}
 					okVals := keysV != nil && contV != nil
+					var itemCall *ssa.Call // the stream decoding loop written out in fn itself
 					if okVals {
 						_, kp := keysV.(*ssa.Parameter)
 						ex, isEx := contV.(*ssa.Extract)
@@ -508,6 +537,36 @@ func c09(c *Ctx) {
 						if okVals {
 							cc, _ := ex.Tuple.(*ssa.Call)
 							okVals = cc != nil && core.StaticCalleeFn(cc) != nil && decodesStream(core.StaticCalleeFn(cc))
+						}
+						if ph, isPhi := contV.(*ssa.Phi); kp && isPhi && core.InLoop(ph.Block()) {
+							// contents = nothing, then one append of the item decoder's item per pass
+							okAcc := true
+							for _, e := range ph.Edges {
+								if core.IsEmptySlice(e) {
+									continue
+								}
+								switch x := core.Unwrap(e).(type) {
+								case *ssa.Call:
+									el := []ssa.Value(nil)
+									if core.CalleeID(x) == "builtin.append" && x.Call.Args[0] == ssa.Value(ph) {
+										el = core.VariadicElems(x.Call.Args[1])
+									}
+									ic := (*ssa.Call)(nil)
+									if len(el) == 1 {
+										if ex2, isEx2 := el[0].(*ssa.Extract); isEx2 && ex2.Index == 0 {
+											ic, _ = ex2.Tuple.(*ssa.Call)
+										}
+									}
+									if ic != nil && core.StaticCalleeFn(ic) != nil && len(core.CallsTo(core.StaticCalleeFn(ic), lebDecode32)) > 0 && core.InLoop(ic.Block()) {
+										itemCall = ic
+									} else {
+										okAcc = false
+									}
+								default:
+									okAcc = false
+								}
+							}
+							okVals = okAcc && itemCall != nil
 						}
 					}
 					r.Check(okVals, "R4.enqueue", name+" element-fields", p.Pos(sel.Pos()), "the element carries the keys parameter and the decoded contents unmodified", "the queue element does not carry exactly the accepted keys and the decoded contents")
@@ -519,6 +578,25 @@ func c09(c *Ctx) {
 						})
 						w := core.InstrGuarded(sel, g, nil)
 						r.Check(w == nil, "R4.enqueue", name+" count-gate", p.Pos(sel.Pos()), "enqueue only under len(keys) == len(contents)", "a stream with a different item count can be paired with the keys and enqueued: "+p.PathString(w))
+						if itemCall != nil {
+							arg := itemCall.Call.Args[0]
+							lenZero := core.AnyFact(func(f core.Fact) bool {
+								return core.CmpFact(f, func(op token.Token, x, y ssa.Value) bool {
+									n, isC := core.ConstInt(y)
+									if !isC || !core.IsLenOf(x, func(v ssa.Value) bool { return v == arg }) {
+										return false
+									}
+									return (op == token.LEQ && n == 0) || (op == token.EQL && n == 0) || (op == token.LSS && n == 1)
+								})
+							})
+							wd := core.InstrGuarded(sel, lenZero, nil)
+							r.Check(wd == nil, "R4.enqueue", name+" decoder-consumes-whole-stream", p.Pos(itemCall.Pos()), "the contents compared with the keys are ALL items of the stream", "the stream decoder can stop before the end of the stream, so a stream with more items than keys passes the count gate and its first items are paired with the accepted keys: "+p.PathString(wd))
+							g2 := core.ErrNilGate("decode", func(c2 *ssa.Call) bool { return c2 == itemCall })
+							w2 := core.CutReach(core.CutSpec{Fn: fn, From: itemCall.Block(),
+								Cut:    func(b2 *ssa.BasicBlock, i int) bool { return g2.Edge(core.EdgeFacts(b2, i)) },
+								Target: func(prev, b2 *ssa.BasicBlock) bool { return prev != nil && b2 == sel.Block() }})
+							r.Check(w2 == nil, "R4.enqueue", name+" decode-gate", p.Pos(sel.Pos()), "enqueue only after the stream decoded without error", "an undecodable stream can be enqueued: "+p.PathString(w2))
+						}
 						// the decoder must consume the whole stream, otherwise surplus items are silently cut off and the count gate is vacuous
 						if ex, ok := contV.(*ssa.Extract); ok {
 							if cc, ok := ex.Tuple.(*ssa.Call); ok {
@@ -654,44 +732,118 @@ func c09(c *Ctx) {
 
 	// ---- R6 in-flight cleanup
 	for _, fn := range p.ModuleFuncs() {
-		var caches []ssa.CallInstruction
-		core.Calls(fn, func(ci ssa.CallInstruction) {
-			f := core.StaticCalleeFn(ci)
-			if f != nil && core.InModule(f) && touchesInflight(f, "Set") {
-				caches = append(caches, ci)
+		for _, cs := range inflightOps(fn, "Set") {
+			if fn.Parent() == nil && cs.direct {
+				// the helper that marks one key set is itself such a site; its callers are checked
+				if len(p.CallersOfFn(fn)) > 0 {
+					continue
+				}
 			}
-		})
-		for _, cs := range caches {
 			name := core.FuncName(fn)
 			okDefer := false
 			for _, b := range fn.Blocks {
 				for _, in := range b.Instrs {
 					d, ok := in.(*ssa.Defer)
-					if !ok {
+					if !ok || !d.Block().Dominates(cs.at.Block()) {
 						continue
 					}
-					f := core.StaticCalleeFn(d)
-					if f != nil && touchesInflight(f, "Del") {
+					if f := core.StaticCalleeFn(d); f != nil && touchesInflight(f, "Del") && len(d.Call.Args) > 0 {
 						// same key set
-						a1 := d.Call.Args[len(d.Call.Args)-1]
-						a2 := cs.Common().Args[len(cs.Common().Args)-1]
-						if core.SameValue(a1, a2) && d.Block().Dominates(cs.Block()) {
+						if core.SameValue(d.Call.Args[len(d.Call.Args)-1], cs.keys) {
 							okDefer = true
+						}
+					}
+					// the removal written out in the deferred function
+					if mc, isMc := d.Call.Value.(*ssa.MakeClosure); isMc {
+						for _, del := range inflightOps(mc.Fn.(*ssa.Function), "Del") {
+							if core.SameValue(del.keys, cs.keys) && core.Dominates(del.hdrOrBlock(), mc.Fn.(*ssa.Function)) {
+								okDefer = true
+							}
 						}
 					}
 				}
 			}
-			r.Check(okDefer, "R6.inflight-cleanup", name, p.Pos(cs.Pos()), "keys marked in-flight are removed by a deferred call registered before they are marked", "keys marked as being received can stay marked after the goroutine exits (later offers of them are declined forever)")
+			r.Check(okDefer, "R6.inflight-cleanup", name, p.Pos(core.InstrPos(cs.at)), "keys marked in-flight are removed by a deferred call registered before they are marked", "keys marked as being received can stay marked after the goroutine exits (later offers of them are declined forever)")
 			// every path to the wait for the connection marks the keys first (whatever the version of the offering peer)
 			core.Calls(fn, func(c3 ssa.CallInstruction) {
 				if !strings.HasSuffix(core.CalleeID(c3), utpAcceptWithCid) {
 					return
 				}
-				w := core.MustPassBefore(c3, func(in ssa.Instruction) bool { return in == cs.(ssa.Instruction) })
+				w := core.MustPassBefore(c3, cs.passes)
 				r.Check(w == nil, "R6.inflight-cleanup", name+" marked-before-waiting", p.Pos(c3.Pos()), "the keys are marked in flight on every path before the goroutine waits for the transfer", "a transfer can be awaited without its keys having been marked as being received (a concurrent offer of the same key is accepted a second time): "+p.PathString(w))
 			})
 		}
 	}
+}
+
+// inflightOp: a place where a whole key set is put into (Set) or taken out of (Del) the cache of
+// keys being received: a call of a module helper doing it for its last argument, or the loop
+// over the set written out.
+type inflightOp struct {
+	at     ssa.Instruction
+	keys   ssa.Value
+	direct bool
+	hdr    *ssa.BasicBlock // direct form: the header of the loop over keys
+}
+
+func (o inflightOp) hdrOrBlock() *ssa.BasicBlock {
+	if o.hdr != nil {
+		return o.hdr
+	}
+	return o.at.Block()
+}
+
+// passes: the instruction is (part of) the operation; for the written-out loop, reaching the
+// loop header is what every path must do (an empty key set runs no iteration).
+func (o inflightOp) passes(in ssa.Instruction) bool {
+	if o.direct {
+		return in.Block() == o.hdr
+	}
+	return in == o.at
+}
+
+func inflightOps(fn *ssa.Function, method string) []inflightOp {
+	var out []inflightOp
+	core.Calls(fn, func(ci ssa.CallInstruction) {
+		if _, isDefer := ci.(*ssa.Defer); isDefer {
+			return
+		}
+		args := ci.Common().Args
+		if _, isGo := ci.(*ssa.Go); isGo {
+			return
+		}
+		if f := core.StaticCalleeFn(ci); f != nil && f.Parent() == nil && core.InModule(f) && touchesInflight(f, method) && len(args) > 0 {
+			out = append(out, inflightOp{at: ci, keys: args[len(args)-1]})
+			return
+		}
+		if !strings.HasSuffix(core.CalleeID(ci), "."+method) || len(args) < 2 {
+			return
+		}
+		if _, fld, ok := core.LoadedField(args[0]); !ok || fld != "transferringKeyCache" {
+			return
+		}
+		u, ok := core.Unwrap(args[1]).(*ssa.UnOp)
+		if !ok || u.Op != token.MUL {
+			return
+		}
+		ia, ok := u.X.(*ssa.IndexAddr)
+		if !ok || !core.InLoop(ci.Block()) {
+			return
+		}
+		var hdr *ssa.BasicBlock
+		core.Derives(ia.Index, func(v ssa.Value) bool {
+			if ph, isPhi := v.(*ssa.Phi); isPhi && isInductionVar(ph) {
+				hdr = ph.Block()
+				return true
+			}
+			return false
+		}, core.DeriveOpts{})
+		if hdr == nil {
+			return
+		}
+		out = append(out, inflightOp{at: ci, keys: ia.X, direct: true, hdr: hdr})
+	})
+	return out
 }
 
 func touchesInflight(f *ssa.Function, method string) bool {
@@ -763,4 +915,122 @@ func blocksUnder(fn *ssa.Function, pred func(fs []core.Fact) bool) map[*ssa.Basi
 		}
 	}
 	return out
+}
+
+// appendVerdicts describes the code-list verdicts built by appending: an empty list before the
+// loop over the offered keys, one append per pass, the list handed to the reply afterwards.
+type appendVerdicts struct {
+	header  *ssa.BasicBlock
+	phi     *ssa.Phi
+	appends map[*ssa.Call]bool
+}
+
+func (av *appendVerdicts) elem(c *ssa.Call) ssa.Value {
+	el := core.VariadicElems(c.Call.Args[1])
+	if len(el) != 1 {
+		return nil
+	}
+	v := core.Unwrap(el[0])
+	if cv, ok := v.(*ssa.Convert); ok {
+		v = cv.X
+	}
+	return v
+}
+
+func findAppendVerdicts(f *ssa.Function) *appendVerdicts {
+	for _, b := range f.Blocks {
+		if !core.InLoop(b) {
+			continue
+		}
+		for _, in := range b.Instrs {
+			ph, ok := in.(*ssa.Phi)
+			if !ok {
+				continue
+			}
+			st, isSl := ph.Type().Underlying().(*types.Slice)
+			if !isSl {
+				continue
+			}
+			if bt, isB := st.Elem().Underlying().(*types.Basic); !isB || bt.Kind() != types.Uint8 {
+				continue
+			}
+			// starts empty
+			empty := false
+			for _, e := range ph.Edges {
+				if core.IsEmptySlice(e) {
+					empty = true
+				}
+			}
+			if !empty {
+				continue
+			}
+			av := &appendVerdicts{header: b, phi: ph, appends: map[*ssa.Call]bool{}}
+			fromPhi := func(v ssa.Value) bool {
+				return core.Derives(v, func(x ssa.Value) bool { return x == ssa.Value(ph) }, core.DeriveOpts{})
+			}
+			for _, b2 := range f.Blocks {
+				for _, i2 := range b2.Instrs {
+					cc, isC := i2.(*ssa.Call)
+					if !isC || core.CalleeID(cc) != "builtin.append" || !types.Identical(cc.Type(), ph.Type()) {
+						continue
+					}
+					if fromPhi(cc.Call.Args[0]) && len(core.VariadicElems(cc.Call.Args[1])) == 1 {
+						av.appends[cc] = true
+					}
+				}
+			}
+			if len(av.appends) == 0 {
+				continue
+			}
+			// the loop walks the offered keys with an induction variable, and the list as it stands
+			// when the loop ends is what the reply carries
+			walks, handed := false, false
+			for _, b2 := range f.Blocks {
+				for _, i2 := range b2.Instrs {
+					switch x := i2.(type) {
+					case *ssa.IndexAddr:
+						if isRequestKeys(x.X) && core.InLoop(b2) && core.Derives(x.Index, isInductionVar, core.DeriveOpts{}) {
+							walks = true
+						}
+					case *ssa.Store:
+						if _, fld, _, ok := core.FieldRef(x.Addr); ok && fld == "ContentKeys" && core.Unwrap(x.Val) == ssa.Value(ph) {
+							handed = true
+						}
+					}
+				}
+			}
+			if walks && handed {
+				return av
+			}
+		}
+	}
+	return nil
+}
+
+// secondAppend: a path that appends a second verdict before the loop header is reached again.
+func (av *appendVerdicts) secondAppend(f *ssa.Function) []*ssa.BasicBlock {
+	blocks := map[*ssa.BasicBlock]int{}
+	for c := range av.appends {
+		blocks[c.Block()]++
+	}
+	for b, n := range blocks {
+		if n > 1 {
+			return []*ssa.BasicBlock{b}
+		}
+		for _, s := range b.Succs {
+			if s == av.header {
+				continue
+			}
+			if blocks[s] > 0 {
+				return []*ssa.BasicBlock{b, s}
+			}
+			w := core.CutReach(core.CutSpec{Fn: f, From: s,
+				Cut:    func(x *ssa.BasicBlock, i int) bool { return x.Succs[i] == av.header },
+				Target: func(prev, x *ssa.BasicBlock) bool { return prev != nil && blocks[x] > 0 }})
+			if w != nil {
+				return append([]*ssa.BasicBlock{b}, w...)
+			}
+		}
+	}
+	return nil
 }
